@@ -374,8 +374,9 @@ class PrimaiteGame:
                         _LOGGER.error(msg)
                         raise ValueError(msg)
 
-                    # run the application
-                    new_application.run()
+                    # open the application - and only that: an application whose own run() also executes its attack
+                    # loop (dos-bot) must not spend an attack, and a random port-scan trial, while the scenario is loaded
+                    Application.run(new_application)
 
             if "network_interfaces" in node_cfg:
                 for nic_num, nic_cfg in sorted(node_cfg["network_interfaces"].items(), key=lambda item: int(item[0])):
